@@ -327,6 +327,8 @@ class PeerConnection:
         self._interrupt_fileno: int = interrupt_fileno
         self._last_msg: int = 0
         self._last_read: int = 0
+        # timestamp of the connection object being created
+        self._created: int = int(time.time())
         # timestamp of last DWR sent, cleared after DWA
         self._last_dwr: int = 0
         self._read_buffer: bytes = b""
@@ -460,6 +462,11 @@ class PeerConnection:
         if not self.is_waiting_for_dwa:
             return 0
         return int(time.time()) - self._last_dwr
+
+    @property
+    def lifetime(self) -> int:
+        """Seconds since the connection was accepted or dialled."""
+        return int(time.time()) - self._created
 
     @property
     def last_read_since(self) -> int:
